@@ -317,7 +317,10 @@ ENTRY = {
                                 dict(Y='tt', e='rel', r='int:rmax',
                                      is_eigh=L(False)),
                                 dict(Y='tt', is_eigh=L(False)),
-                                dict(Y='tt', orth=L(False))],
+                                dict(Y='tt', orth=L(False)),
+                                dict(Y='tt1', e='rel', r='int:rmax'),
+                                dict(Y='tt1', e='rel', r='int:rmax',
+                                     is_eigh=L(False))],
     'vectors.vector_delta': [dict(q=L(3), i=L(5), v='num:v'),
                              dict(q=L(3), i=L(-1), v='num:v')],
     'vis.show': [dict(Y='tt')],
@@ -356,6 +359,14 @@ def build(spec, name, d, label=True):
         t = tt(name, d, label=label)
         for c in t.items:
             c.dims = (c.dims[0], Poly.const(int(spec[3:])), c.dims[2])
+        return t
+    if spec == 'tt1':
+        # a TT-tensor whose LAST interior bond has rank exactly 1 (an outer
+        # product structure); the other bonds stay symbolic
+        t = tt(name, d, label=label)
+        a, b = t.items[d - 2], t.items[d - 1]
+        a.dims = (a.dims[0], a.dims[1], ONE)
+        b.dims = (ONE, b.dims[1], b.dims[2])
         return t
     if spec == 'tt2q':
         t = tt(name, 2 * d, label=label)
